@@ -365,7 +365,7 @@ class X86_64Arch(Architecture):
                         int_regs.pop(0)
                 else:
                     # We need stack location!
-                    arg_size = self.info.get_size(arg_type)
+                    arg_size = 8  # All floats are passed in 8 byte memory
                     reg = StackLocation(offset, arg_size)
                     offset += arg_size
             elif isinstance(arg_type, ir.BlobDataTyp):
